@@ -91,7 +91,7 @@ Proof.
     destruct (alookup (r_mid r) (smap s)) as [o|].
     + destruct (getop s o) as [c|]; [destruct (r_kind r); destruct (o_rx c)|destruct (r_kind r)]; cbn [negb];
         repeat match goal with |- context [if ?b then _ else _] => destruct b end; repeat fstrip.
-    + destruct (alookup (r_mid r) (rmap s)) as [o|]; repeat fstrip.
+    + destruct (alookup (r_mid r) (rmap s)) as [o|]; repeat match goal with |- context [if ?b then _ else _] => destruct b end; repeat fstrip.
   - (* DrvEnd *) destruct (is_running s); [apply fsext_end_driver|apply fsext_refl].
   - (* ServerSend *) repeat fstrip.
   - (* CliPoll: only a waiting operation changes status *)
